@@ -362,7 +362,7 @@ func c14Instantiate(shape string, r *core.Rng, words []string) string {
 func c14() *core.Check {
 	return &core.Check{
 		ID: "C14",
-		Rule: "G_benign against the LIVE keyword table: word = [A-Za-z_][A-Za-z0-9_]* from a frozen list (4000 English words in three capitalisations + identifier shapes of length 1-40), also behind 28 identifier prefixes (sp_, xp_, pg_, is_, ... one family per sequence) and mixed with marker-like words (sp_password, near-keywords) that is not a key, component or dotted prefix of a key; number = [0-9]+ incl. 31/32/33-digit runs; (1) the token-class abstraction exhaustively: all 62 sequences over {n,1} of length 1-5 must be absent from the live blacklist; (2) every sequence shape over {word,number} up to length 7 joined by single spaces, 64 (thorough 16384) random instantiations each; (3) e-mail / decimal / sentence shapes incl. apostrophes, near-keyword words (one letter glued to a keyword) and random identifiers (those not dropped by the one-time calibration), sampled; (4) 24 M (thorough 300 M) inputs built from distinct random identifiers between numbers; (5) ~30 000 keyword look-alikes (digits for look-alike letters, one letter dropped / doubled / swapped, common suffixes; those that are not table words) in six frames; (6) one identifier of 2^k+d letters (k up to 16, d = -34..34, also 65568+d) whose tail spells a keyword; multi-word keys glued into one identifier; base64 / hex spellings of injection strings; (7) benign bodies of 128 KiB-16 MiB (thorough 64 MiB); (8) long benign texts whose first and last 2^k bytes would join into a keyword; (9) sentences in which one word ends with and the next begins with the two keywords of an attack phrase; every eighth input is also asked through a zero-copy view of a recycled buffer that held an equally long attack one call earlier. Oracle: IsSQLi = (false,\"\"). " +
+		Rule: "G_benign against the LIVE keyword table: word = [A-Za-z_][A-Za-z0-9_]* from a frozen list (4000 English words in three capitalisations + identifier shapes of length 1-40), also behind 28 identifier prefixes (sp_, xp_, pg_, is_, ... one family per sequence) and mixed with marker-like words (sp_password, near-keywords) that is not a key, component or dotted prefix of a key; number = [0-9]+ incl. 31/32/33-digit runs; (1) the token-class abstraction exhaustively: all 62 sequences over {n,1} of length 1-5 must be absent from the live blacklist; (2) every sequence shape over {word,number} up to length 7 joined by single spaces, 64 (thorough 16384) random instantiations each; (3) e-mail / decimal / sentence shapes incl. apostrophes, near-keyword words (one letter glued to a keyword) and random identifiers (those not dropped by the one-time calibration), sampled; (4) 24 M (thorough 300 M) inputs built from distinct random identifiers between numbers; (5) ~30 000 keyword look-alikes (digits for look-alike letters, one letter dropped / doubled / swapped, common suffixes; those that are not table words) in six frames; (6) one identifier of 2^k+d letters (k up to 16, d = -34..34, also 65568+d) whose tail spells a keyword; multi-word keys glued into one identifier; base64 / hex spellings of injection strings; (7) benign bodies of 128 KiB-16 MiB (thorough 256 MiB); (8) long benign texts whose first and last 2^k bytes would join into a keyword; (9) the letters of every two-word table phrase split at another place, asked right after the phrase itself; sentences in which one word ends with and the next begins with the two keywords of an attack phrase; every eighth input is also asked through a zero-copy view of a recycled buffer that held an equally long attack one call earlier. Oracle: IsSQLi = (false,\"\"). " +
 			"Non-trivial = every instance; distinct by string. The per-context fingerprints are recorded to show that the n/1 abstraction is what the implementation produced.",
 		Exhaustive: false,
 		Plan: func(tier string, seed uint64) []core.Unit {
@@ -386,6 +386,7 @@ func c14() *core.Check {
 			us = append(us, gen.RangeUnits("huge", uint64(len(hugeSizes(tier))*3), 1, tier)...)
 			us = append(us, gen.RangeUnits("splice", uint64(len(c14SpliceCuts)*len(c14SpliceWords)), 4, "")...)
 			us = append(us, core.Unit{Gen: "embedded", Lo: 0, Hi: 1})
+			us = append(us, core.Unit{Gen: "resplit", Lo: 0, Hi: 1})
 			return us
 		},
 		Gen: func(w *core.Worker, u core.Unit, emit func(core.Case)) {
@@ -463,6 +464,39 @@ func c14() *core.Check {
 						}
 						emit(core.Case{In: word + " 25", Kind: "longword"})
 						emit(core.Case{In: "7 " + word + " 3", Kind: "longword"})
+					}
+				}
+			case "resplit":
+				// the letters of a two-word table phrase split at another place
+				// ("grou pby", "unio nall"), asked right after the real phrase was
+				// (One asks the phrase first): a phrase memo keyed without the blank
+				for k, v := range keywords() {
+					if v == 'F' || strings.Count(k, " ") != 1 {
+						continue
+					}
+					low := strings.ToLower(k)
+					letters := strings.ReplaceAll(low, " ", "")
+					ok := true
+					for i := 0; i < len(letters); i++ {
+						if !isLetter(letters[i]) {
+							ok = false
+						}
+					}
+					if !ok {
+						continue
+					}
+					sp := strings.IndexByte(low, ' ')
+					for cut := 1; cut < len(letters); cut++ {
+						if cut == sp {
+							continue
+						}
+						w1, w2 := letters[:cut], letters[cut:]
+						if !c14Admitted(w1) || !c14Admitted(w2) {
+							continue
+						}
+						for _, f := range []string{"5 %s %s 7", "%s %s 3", "1 %s %s", "items %s %s 3"} {
+							emit(core.Case{In: fmt.Sprintf(f, w1, w2), Kind: "resplit", S: low})
+						}
 					}
 				}
 			case "embedded":
@@ -600,6 +634,12 @@ func c14() *core.Check {
 				}
 				st.ring[slot] = c.In
 			}
+			if c.Kind == "resplit" {
+				// the real phrase first, in three frames (answers ignored)
+				li.IsSQLi("1 " + c.S + " 1")
+				li.IsSQLi("select a from t " + c.S + " b")
+				li.IsSQLi("1 " + c.S)
+			}
 			b, f := li.IsSQLi(c.In)
 			if b || f != "" {
 				w.Violate("benign-reported", fmt.Sprintf("IsSQLi(%q) = (%v,%q) for a member of the benign family (%s %s)\n%s", c.In, b, f, c.Kind, c.S, explainCascadeOf(c.In)))
@@ -638,7 +678,7 @@ func c14() *core.Check {
 func hugeSizes(tier string) []int {
 	s := []int{131073, 1<<20 + 1, 1000001, 4<<20 + 1, 10000001, 13107201, 16<<20 + 1}
 	if tier == "thorough" {
-		s = append(s, 32<<20+1, 64<<20+1)
+		s = append(s, 32<<20+1, 64<<20+1, 256<<20+1)
 	}
 	return s
 }
@@ -970,7 +1010,7 @@ func c19() *core.Check {
 			}
 			// ordinary markup in front of the tag (the verdict must come from the
 			// URL value: nothing in these prefixes is black)
-			doc = []string{"", "", "<i>x</i >", "<b></b\n>text ", "<p/>", "<p>one</p><p>two</p >", "<br/><td a=b></td c='d'>", "</>"}[int(c.A/11)%8] + doc
+			doc = []string{"", "", "<i>x</i >", "<b></b\n>text ", "<p/>", "<p>one</p><p>two</p >", "<br/><td a=b></td c='d'>", "</>", "<img alt=>", "<b c=>t", "<i x= ><b y=''>"}[int(c.A/11)%11] + doc
 			if !li.IsXSS(doc) {
 				w.Violate("scheme-not-recognised", fmt.Sprintf("IsXSS(%q) = false although the value decodes to a script-capable scheme\n%s", trunc(doc, 200), explainXSS(doc)))
 				return
